@@ -819,8 +819,14 @@ func (rt *runtime) cmplParse(filename string, src, sm interface{}) (*nodeProgram
 func (rt *runtime) parseSource(src, sm interface{}) (*nodeProgram, *ast.Program, error) {
 	switch src := src.(type) {
 	case *ast.Program:
+		if src == nil {
+			return nil, nil, errors.New("nil *ast.Program")
+		}
 		return nil, src, nil
 	case *Script:
+		if src == nil {
+			return nil, nil, errors.New("nil *Script")
+		}
 		return src.program, nil, nil
 	}
 
